@@ -196,7 +196,7 @@ def cvc5_second_opinion(ctx, cond, z3_holds, hname, n, out):
                    "(bvmul ((_ zero_extend 64) a) ((_ zero_extend 64) b))) (_ bv0 64)))\n")
         f.write("(set-logic ALL)\n" + pre + txt)
     try:
-        p = subprocess.run(["cvc5", "--lang", "smt2", "--tlimit=20000", path], capture_output=True, text=True, timeout=40)
+        p = subprocess.run(["cvc5", "--lang", "smt2", "--tlimit=5000", path], capture_output=True, text=True, timeout=15)
     except subprocess.TimeoutExpired:
         out.outcome("cvc5 timeout")
         return
@@ -369,7 +369,7 @@ def main(tier):
     # for the exploration alone (builds depend on the machine's load); sized for 16 workers, stretched for fewer
     jobs = max(1, int(os.environ.get("VERIF_JOBS", "16")))
     deadline = time.time() + (1200 if tier == "quick" else 3000) * max(1, 16 // jobs)
-    SECOND_OPINION_PER_HARNESS[0] = 3 if tier == "quick" else 12
+    SECOND_OPINION_PER_HARNESS[0] = 3 if tier == "quick" else 8
     res = {}
     # harnesses with equal fan-out depth are explored together (one worker pool per group)
     for depth in sorted(set(h.depth for h in hs)):
